@@ -101,6 +101,12 @@ def _gen_case(rng, tier, g):
             right = right[:1]
         if rng.random() < 0.08:
             left = left[:1]
+        if rng.random() < 0.12:
+            # a title line repeated among the data rows (a concatenated
+            # export): a key VALUE that spells a field NAME is a value
+            line = list(rng.choice([left[0], right[0]]))
+            line = (line + list(left[0]))[:nfl]
+            left.insert(rng.randint(1, len(left)), line)
         r = rng.random()
         if r < 0.5:
             keyspec = {'key': 'a'}
